@@ -35,7 +35,12 @@ class HttpCheck(_checks.Check):
     def __call__(self, target, creds, enforcer, current_rule=None):
         timeout = enforcer.conf.oslo_policy.remote_timeout
 
-        url = ('http:' + self.match) % target
+        try:
+            url = ('http:' + self.match) % target
+        except KeyError:
+            # Like the role and generic checks: if a key referenced by the
+            # rule is not present in the target, fail closed
+            return False
         data, json = self._construct_payload(creds, current_rule,
                                              enforcer, target)
         try:
@@ -77,7 +82,12 @@ class HttpsCheck(HttpCheck):
     """
 
     def __call__(self, target, creds, enforcer, current_rule=None):
-        url = ('https:' + self.match) % target
+        try:
+            url = ('https:' + self.match) % target
+        except KeyError:
+            # Like the role and generic checks: if a key referenced by the
+            # rule is not present in the target, fail closed
+            return False
 
         cert_file = enforcer.conf.oslo_policy.remote_ssl_client_crt_file
         key_file = enforcer.conf.oslo_policy.remote_ssl_client_key_file
